@@ -37,6 +37,7 @@ This should cover most use cases, but you can use `forger_function` or
 
 """
 
+import threading
 from functools import partial, update_wrapper
 
 from sigtools import _util, modifiers, signatures, _specifiers, _verif
@@ -56,7 +57,9 @@ _kwowr = modifiers.kwoargs('obj')
 signature = _specifiers.forged_signature
 
 
-class _AsForged(object):
+class _AsForged(threading.local):
+    # the recursion guard is per thread: another thread asking for the
+    # signature of the same object is not recursing
     def __init__(self):
         self.currently_computing = set()
 
